@@ -9,7 +9,8 @@ Open Scope Z_scope.
 (** remove_inconsistent_jobs:
     stmt_1 = parent ids of the association table that are not event ids of any node;
     stmt_2 = job ids of nodes that are the child of such a row;
-    DELETE FROM nodes WHERE job_id IN stmt_2.   The association table is not touched. *)
+    DELETE FROM nodes WHERE job_id IN stmt_2; then (since the "fix:" commit 2c81313)
+    DELETE FROM NODE_ASSOCIATION WHERE child_id NOT IN (SELECT event_id FROM nodes). *)
 Definition missing_parents (st : store) : list positive :=
   filter (fun p => negb (memp p (ids (db st)))) (map fst (assoc st)).
 
@@ -19,7 +20,16 @@ Definition is_dangling_child (st : store) (n : node) : bool :=
 Definition bad_jobs (st : store) : list positive :=
   map njob (filter (is_dangling_child st) (db st)).
 
+(** _remove_associations_of_removed_nodes *)
+Definition prune_assoc (d : list node) (a : list (positive * positive)) : list (positive * positive) :=
+  filter (fun k => memp (snd k) (ids d)) a.
+
 Definition rm_inconsistent (st : store) : store :=
+  let d := filter (fun n => negb (memp (njob n) (bad_jobs st))) (db st) in
+  mkstore d (prune_assoc d (assoc st)) (hashes st).
+
+(** the pinned tree left the association table untouched *)
+Definition rm_inconsistent_v0 (st : store) : store :=
   mkstore (filter (fun n => negb (memp (njob n) (bad_jobs st))) (db st)) (assoc st) (hashes st).
 
 (** DataHolder.min_timestamp / max_timestamp over the raw process-local trackers, and
@@ -46,6 +56,10 @@ Definition window_jobs (w : Z * Z) (st : store) : list positive :=
   map njob (filter (in_window w) (db st)).
 
 Definition rm_outside (w : Z * Z) (st : store) : store :=
+  let d := filter (fun n => memp (njob n) (window_jobs w st)) (db st) in
+  mkstore d (prune_assoc d (assoc st)) (hashes st).
+
+Definition rm_outside_v0 (w : Z * Z) (st : store) : store :=
   mkstore (filter (fun n => memp (njob n) (window_jobs w st)) (db st)) (assoc st) (hashes st).
 
 (** update_job_names_by_root_span: UPDATE nodes SET job_name = r.job_name FROM (roots) r
@@ -70,6 +84,8 @@ Definition update_names (st : store) : store :=
 (** the fixed order of otel_to_pv *)
 Definition clean (w : Z * Z) (st : store) : store :=
   update_names (rm_outside w (rm_inconsistent st)).
+Definition clean_v0 (w : Z * Z) (st : store) : store :=
+  update_names (rm_outside_v0 w (rm_inconsistent_v0 st)).
 
 (** "had the removed traces never been ingested": drop the nodes of the traces not in [keepj]
     together with the association rows whose child belongs to them. *)
